@@ -85,7 +85,7 @@ def install_seams():
 
         def step(self):
             plan = self._sim_plan
-            if plan is not None and self._sim_steps == plan["at_step"]:
+            if plan is not None and not plan["fired"] and self._sim_steps == plan["at_step"]:
                 plan["fired"] = True
                 self.status = "failed"
                 return "injected solver failure"
@@ -461,7 +461,7 @@ class World:
                "fault": fault["kind"] if fault else None}
         dry = None
         if fault is not None and fault.get("placement", "mod") == "mod":
-            dry = self.dry_run(mrec, op)
+            dry = op.get("_dry") or self.dry_run_for(mrec, op)
             rec["dry"] = {k: dry[k] for k in ("ok", "exc", "nL", "nP", "nR", "steps")}
             rec["dry_twin"] = dry["twin"]
             rec["dry_F"] = dry["F"]
@@ -673,9 +673,91 @@ class World:
         mrec.ids = (id(new.orientations), id(new.fractions))
         return rec
 
+    FAULT_COUNT_KEY = {"L_raises": "nL", "L_malformed": "nL", "L_nonfinite": "nL",
+                       "position_raises": "nP", "regime_raises": "nR",
+                       "regime_unsupported": "nR", "solver_failed": "steps"}
+
+    def do_fault_sweep(self, i, op):
+        """Inject the fault at every instant (or `max` evenly spread instants) of one
+        update, one after the other on the same mineral: a failed update must leave the
+        mineral untouched, so the next injection starts from the same state."""
+        mrec = self.minerals[op["m"]]
+        base = {k: v for k, v in op.items() if k not in ("op", "kind", "max", "fault_extra")}
+        base["op"] = "update"
+        kind = op["kind"]
+        if kind in ("regime_raises", "regime_unsupported") and base.get("regime_field") is None \
+                and mrec.spec.get("regime_field") is None:
+            pass  # do_update supplies a constant regime field for these kinds
+        probe = dict(base)
+        if kind in ("regime_raises", "regime_unsupported"):
+            probe["fault"] = {"kind": kind, "at_call": 10 ** 9, "placement": "abs",
+                              **op.get("fault_extra", {})}
+            # a never-firing fault so that the dry run also passes get_regime
+        dry = self.dry_run_for(mrec, probe)
+        if kind == "params_key_missing":
+            N = dry["reads"].get(op["fault_extra"]["key"], 0)
+        else:
+            N = dry[self.FAULT_COUNT_KEY[kind]]
+        cap = int(op.get("max", 64))
+        if N <= cap:
+            instants = list(range(N))
+        else:
+            instants = sorted({(j * N) // cap for j in range(cap)} | {N - 1})
+        rec = {"i": i, "op": "fault_sweep", "m": op["m"], "kind": kind, "N": N,
+               "instants": len(instants), "sub": [], "status": "swept", "exc": None,
+               "dry": {k: dry[k] for k in ("ok", "exc", "nL", "nP", "nR", "steps")},
+               "dry_twin": dry["twin"], "dry_F": dry["F"], "fault": kind}
+        for j in instants:
+            o = dict(base)
+            f = {"kind": kind, "placement": "abs", **op.get("fault_extra", {})}
+            if kind == "params_key_missing":
+                f["after_reads"] = j
+            elif kind == "solver_failed":
+                f["at_step"] = j
+            else:
+                f["at_call"] = j
+            o["fault"] = f
+            if kind in ("regime_raises", "regime_unsupported"):
+                o["restore_regime"] = True
+            r = self.do_update(i, o)
+            r["fault_at"] = j
+            r["dry_twin"] = dry["twin"]
+            r["dry_F"] = dry["F"]
+            r["dry"] = rec["dry"]
+            rec["sub"].append(r)
+        return rec
+
+    def dry_run_for(self, mrec, op):
+        f = op.get("fault")
+        if f and f["kind"] in ("regime_raises", "regime_unsupported"):
+            # dry run with get_regime passed (constant field of the mineral's own regime)
+            fi, pi, qi, ri = self._env_indices(op, mrec)
+            if ri is None:
+                twin = copy.deepcopy(mrec.obj)
+                rf = E.RegimeField({"kind": "const", "r": int(mrec.obj.regime)},
+                                   pydrex.DeformationRegime)
+                cb = Callbacks(self.flows[fi], self.paths[pi], self.tr, rf)
+                params = CountingParams(self.paramsets[qi])
+                _tls.solver_count = cnt = {}
+                _tls.solver_plan = None
+                t0, t1 = self.tr.t_of_tau(op["t0"]), self.tr.t_of_tau(op["t1"])
+                try:
+                    F = self._call_update(twin, params, mrec.F.copy(), cb, t0, t1, True,
+                                          self.solver_kwargs())
+                    ok, exc = True, None
+                except Exception as e:  # noqa: BLE001
+                    F, ok, exc = None, False, type(e).__name__
+                finally:
+                    _tls.solver_count = None
+                return {"ok": ok, "exc": exc, "F": F, "twin": twin, "nL": cb.nL, "nP": cb.nP,
+                        "nR": cb.nR, "steps": cnt.get("steps", 0), "reads": dict(params.reads)}
+        return self.dry_run(mrec, op)
+
     def run_op(self, i, op):
         kind = op["op"]
-        if kind == "update":
+        if kind == "fault_sweep":
+            rec = self.do_fault_sweep(i, op)
+        elif kind == "update":
             rec = self.do_update(i, op)
         elif kind == "update_all":
             rec = self.do_update_all(i, op)
